@@ -158,7 +158,10 @@ def to_obj(m):
         if fc == 0x2B:
             info = {}
             for i, d in m['objects']:
-                info[i] = bytes(d)
+                if i in info:             # an id carried several times: the object keeps a list of values
+                    info[i] = (info[i] if isinstance(info[i], list) else [info[i]]) + [bytes(d)]
+                else:
+                    info[i] = bytes(d)
             o = RSP[fc](m['read_code'], info, **kw)
             o.conformity = m['conformity']
             o.more_follows = m['more']
